@@ -21,12 +21,6 @@ open MJ MJ.Safe
 /-- the invariant: a `Safe` value (recursively in containers) contains no `< > " '` that came from data -/
 abbrev Inv (v : V) : Prop := v.Inv
 
-/-- a step of the safe-marking-free fragment while HTML auto-escaping is in effect -/
-def StepOk : Step → Prop
-  | .emit m _ => m = .html
-  | .apply g _ => InvPreserving g
-  | _ => True
-
 /-- Full-strength statement: whatever sequence of steps a template of the fragment performs —
     through operators, filters, loops, macros, call blocks, captured blocks, includes and blocks —
     the rendered output contains no `< > " '` that came from context data or string literals. -/
@@ -51,71 +45,10 @@ theorem meta_in_prefilter_range :
 /-- each primitive step of the fragment maps a state satisfying the invariant (all registers `Inv`,
     every capture buffer and the output free of data-tainted metacharacters) to such a state -/
 theorem step_preserves_inv (s : Step) (st st' : St) (hok : StepOk s) (h : StInv st)
-    (hr : s.run st = some st') : StInv st' := by
-  cases s with
-  | data x => simp only [Step.run, Option.some.injEq] at hr; subst hr; exact h.push (inv_str_false _)
-  | int n => simp only [Step.run, Option.some.injEq] at hr; subst hr; exact h.push (inv_int n)
-  | bool b => simp only [Step.run, Option.some.injEq] at hr; subst hr; exact h.push (inv_bool b)
-  | none => simp only [Step.run, Option.some.injEq] at hr; subst hr; exact h.push inv_none
-  | undef => simp only [Step.run, Option.some.injEq] at hr; subst hr; exact h.push inv_undef
-  | mkSeq is =>
-    simp only [Step.run, Option.map_eq_some_iff] at hr
-    obtain ⟨xs, hxs, rfl⟩ := hr
-    exact h.push (inv_seq.mpr (args_inv h hxs))
-  | raw x => simp only [Step.run, Option.some.injEq] at hr; subst hr; exact h.write (Clean.ofTmpl x)
-  | emit m i =>
-    simp only [StepOk] at hok; subst hok
-    simp only [Step.run, Option.map_eq_some_iff] at hr
-    obtain ⟨v, hv, rfl⟩ := hr
-    exact h.write (writeEscaped_html_clean (h.1 v (List.mem_of_getElem? hv)))
-  | beginCapture =>
-    simp only [Step.run, Option.some.injEq] at hr; subst hr
-    refine ⟨h.1, ?_, h.2.2⟩
-    intro b hb
-    rcases List.mem_cons.mp hb with rfl | hb
-    · exact Clean.nil
-    · exact h.2.1 b hb
-  | endCapture m =>
-    simp only [Step.run] at hr
-    split at hr
-    · rename_i buf rest heq
-      cases hr
-      have hc := h.2.1
-      rw [heq] at hc
-      have base : StInv { st with caps := rest } :=
-        ⟨h.1, fun b hb => hc b (List.mem_cons_of_mem _ hb), h.2.2⟩
-      exact base.push (inv_str fun _ => hc buf List.mem_cons_self)
-    · cases hr
-  | macroReturn m =>
-    simp only [Step.run] at hr
-    split at hr
-    · rename_i buf rest heq
-      cases hr
-      have hc := h.2.1
-      rw [heq] at hc
-      have base : StInv { st with caps := rest } :=
-        ⟨h.1, fun b hb => hc b (List.mem_cons_of_mem _ hb), h.2.2⟩
-      exact base.push (inv_str fun _ => hc buf List.mem_cons_self)
-    · cases hr
-  | apply g is =>
-    simp only [Step.run] at hr
-    split at hr
-    · cases hr
-    · rename_i xs hxs
-      simp only [Option.map_eq_some_iff] at hr
-      obtain ⟨r, hg, rfl⟩ := hr
-      exact h.push (hok xs r (args_inv h hxs) hg)
+    (hr : s.run st = some st') : StInv st' := Safe.step_preserves_inv s st st' hok h hr
 
-theorem run_preserves_inv : ∀ (steps : List Step) (st st' : St), (∀ s ∈ steps, StepOk s) → StInv st →
-    run steps st = some st' → StInv st'
-  | [], st, st', _, h, hr => by simp only [run, Option.some.injEq] at hr; subst hr; exact h
-  | s :: rest, st, st', hok, h, hr => by
-    simp only [run] at hr
-    split at hr
-    · cases hr
-    · rename_i st1 h1
-      exact run_preserves_inv rest st1 st' (fun x hx => hok x (List.mem_cons_of_mem _ hx))
-        (step_preserves_inv s st st1 (hok s List.mem_cons_self) h h1) hr
+theorem run_preserves_inv (steps : List Step) (st st' : St) (hok : ∀ s ∈ steps, StepOk s) (h : StInv st)
+    (hr : run steps st = some st') : StInv st' := Safe.run_preserves_inv steps st st' hok h hr
 
 /-- **the property**: for every sequence of steps of the fragment from the initial state, nothing
     data-tainted is written raw (and every register and every open capture satisfies the invariant) -/
@@ -156,47 +89,13 @@ theorem capture_in_none_mode_is_unmarked (buf : TStr) : capturedValue .none buf 
 /-- every operator and filter model the driver can run in Html mode and that belongs to the
     fragment preserves the invariant (so `StepOk (.apply g _)` holds for it) -/
 theorem named_models_preserve_inv (name : String) (ps : List Nat) (g : Fn)
-    (h : lookupBase name .html ps = some (g, true)) : InvPreserving g := by
-  unfold lookupBase at h
-  split at h <;> first
-    | (cases h; exact concatF_inv)
-    | (cases h; exact addF_inv)
-    | (cases h; exact repeatF_inv _)
-    | (cases h; exact sliceF_inv _ _)
-    | (cases h; exact elemF_inv _)
-    | (cases h; exact charsF_inv)
-    | (cases h; exact escapeF_inv)
-    | (cases h; exact preserveF_inv (reflects_mapChars upperC_reflecting))
-    | (cases h; exact preserveF_inv (reflects_mapChars lowerC_reflecting))
-    | (cases h; exact preserveF_inv reflects_capitalize)
-    | (cases h; exact normalOut_inv (normalF_normalOut _))
-    | (cases h; exact trimF_inv)
-    | (cases h; exact reverseF_inv)
-    | (cases h; exact preserveF_inv (reflects_indent _ _ _))
-    | (cases h; exact replaceF_inv)
-    | (cases h; exact joinF_inv)
-    | (cases h; exact formatF_inv)
-    | (cases h; exact truncateF_inv _ _ _)
-    | (cases h; exact splitF_inv _)
-    | (cases h; exact piecesF_inv subPieces_lines)
-    | (cases h; exact firstF_inv)
-    | (cases h; exact lastF_inv)
-    | (cases h; exact defaultF_inv _)
-    | (cases h; exact stringF_inv)
-    | (cases h; exact lengthF_inv)
-    | (cases h)
+    (h : lookupBase name .html ps = some (g, true)) : InvPreserving g :=
+  Safe.named_models_preserve_inv name ps g h
 
 /-- … and so does `map` with any such filter -/
 theorem named_models_preserve_inv_map (name : String) (ps : List Nat) (g : Fn)
-    (h : lookupF name .html ps = some (g, true)) : InvPreserving g := by
-  unfold lookupF at h
-  split at h
-  · simp only [Option.map_eq_some_iff] at h
-    obtain ⟨⟨g0, ok⟩, h0, h1⟩ := h
-    simp only [Prod.mk.injEq] at h1
-    obtain ⟨rfl, rfl⟩ := h1
-    exact mapF_inv (named_models_preserve_inv _ ps g0 h0)
-  · exact named_models_preserve_inv name ps g h
+    (h : lookupF name .html ps = some (g, true)) : InvPreserving g :=
+  Safe.named_models_preserve_inv_map name ps g h
 
 /-- class `preserve`: any filter of the shape `value.preserve_safety(g(value.as_str()))` whose `g`
     adds no data-tainted metacharacter (validated for the real `upper`/`lower`/`capitalize` over all
